@@ -22,7 +22,7 @@ ANCHORS = ["MPRenderer.draw_scenario", "MPRenderer.draw_dynamic_obstacle", "MPRe
            "MPRenderer.draw_phantom_obstacle", "MPRenderer.draw_environment_obstacle", "MPRenderer._draw_occupancy",
            "MPRenderer.draw_lanelet_network", "MPRenderer.draw_planning_problem_set", "MPRenderer.render",
            "BaseParam.__setattr__", "MPRenderer.draw_trajectory", "MPRenderer.draw_goal_region"]
-REQUIRED = ["totality.draw", "totality.render", "totality.rasterised", "exactness.checked", "exactness.dynamic-trajectory",
+REQUIRED = ["totality.draw", "totality.render", "totality.rasterised", "types.icon", "types.shape", "exactness.checked", "exactness.dynamic-trajectory",
             "exactness.dynamic-set", "exactness.static", "exactness.phantom", "exactness.environment",
             "exactness.window-before-horizon", "exactness.window-after-horizon", "exactness.no-occupancy-at-begin",
             "lanelets.all", "lanelets.subset", "lanelets.empty-list", "propagation.root", "propagation.nested",
@@ -397,3 +397,56 @@ def run(ctx):
         ctx.fingerprint(["prop", seq])
         if i < 1:
             ctx.sample({"assignments": seq})
+
+    # ------------------------------------------------------------------ every obstacle type x icon / shape / signals
+    # totality over the 'configurations' axis that random flag sampling reaches slowly: one obstacle per obstacle type,
+    # drawn with icons on (types without an icon fall back to the shape), signals and direction markers on, rasterised.
+    from commonroad.scenario.obstacle import ObstacleType
+    from commonroad.scenario.scenario import Scenario
+    from vf.gen.objects import Gen
+    types = list(ObstacleType)
+    for i, rng in ctx.cases("types", len(types) * ctx.pick(1, 6)):
+        ty = types[i % len(types)]
+        G = Gen(rng)
+        try:
+            sc = Scenario(0.1)
+            ob = G.dynamic_obstacle(500 + i, prediction_kind="trajectory" if i % 2 == 0 else "set")
+            ob.obstacle_type = ty
+            sc.add_objects(ob)
+            so = G.static_obstacle(900 + i)
+            so.obstacle_type = ty
+            sc.add_objects(so)
+        except Exception as e:  # noqa
+            ctx.violation("C19/harness/types-%s" % type(e).__name__, repr(e)[:200], {"type": ty.name})
+            continue
+        for icon in (True, False):
+            P = MPDrawParams()
+            P.time_begin = ob.initial_state.time_step
+            P.time_end = P.time_begin + 3
+            P.dynamic_obstacle.draw_icon = icon
+            P.static_obstacle.draw_icon = icon if hasattr(P.static_obstacle, "draw_icon") else False
+            P.dynamic_obstacle.draw_signals = True
+            P.dynamic_obstacle.draw_direction = True
+            P.dynamic_obstacle.show_label = True
+            P.dynamic_obstacle.draw_bounding_box = True
+            ctx.evaluation()
+            ctx.fingerprint(["type", ty.name, icon, i])
+            ctx.feature("types.%s" % ("icon" if icon else "shape"))
+            fig = plt.figure(figsize=(3, 3))
+            stage = "draw"
+            try:
+                rnd = MPRenderer(draw_params=P, ax=fig.gca())
+                sc.draw(rnd)
+                stage = "render"
+                rnd.render()
+                stage = "canvas.draw"
+                fig.canvas.draw()
+            except Exception as e:  # noqa
+                import traceback
+                tb_ = traceback.extract_tb(e.__traceback__)
+                site = next((f.name for f in reversed(tb_) if "commonroad" in f.filename), "?")
+                ctx.violation("C19/totality/obstacle-type/%s/raises-%s/%s/%s" % (
+                    stage, type(e).__name__, site, "icon" if icon else "shape"), "%s: %r" % (ty.name, e),
+                    {"obstacle_type": ty.name, "draw_icon": icon})
+            finally:
+                plt.close(fig)
